@@ -215,6 +215,11 @@ type Env struct {
 	BigBodies bool
 	// NoCompressed removes WriteCompressed from the alphabet.
 	NoCompressed bool
+	// NoHigh removes the high object numbers (which make the xref table long).
+	NoHigh bool
+	// MaxChunk, if > 0, restricts the chunk alphabet to its first MaxChunk
+	// entries (the last two are the 1023/1025-byte bodies).
+	MaxChunk int
 	// ValueDev: if false value/filter/chunk choices are free choices; if true
 	// they cost a deviation (default value otherwise).
 	FreeValues bool
@@ -248,7 +253,7 @@ func (in *interp) arg(what string, o pdf.Object) pdf.Object {
 // with generation 0 or 3.
 func (in *interp) chooseRef(allowHigh bool) (pdf.Reference, string) {
 	n := 1 + len(in.pending)
-	if allowHigh && in.high < 2 {
+	if allowHigh && in.high < 2 && !(in.env != nil && in.env.NoHigh) {
 		n += 2
 	}
 	k := in.c.Choose(n, "ref")
@@ -276,7 +281,11 @@ func (in *interp) fail(err error, where string) {
 }
 
 func (in *interp) chunk() []byte {
-	k := in.pick(len(Chunks), "chunk")
+	nc := len(Chunks)
+	if in.env != nil && in.env.MaxChunk > 0 && in.env.MaxChunk < nc {
+		nc = in.env.MaxChunk
+	}
+	k := in.pick(nc, "chunk")
 	if in.env != nil && in.env.BigBodies {
 		// incompressible, 3000*(k+1) bytes, no line-initial object headers
 		n := 3000 * (k + 1)
